@@ -12,9 +12,10 @@ from ..harness import execute, inspect_mem, probe, violation
 
 LEVEL = "exploration"
 PLAN = {
-    "quick": {"mem": 900},
-    "thorough": {"mem": 50000},
+    "quick": {"mem": 900, "redis": 16, "rabbit": 16},
+    "thorough": {"mem": 50000, "redis": 160, "rabbit": 160},
 }
+STOP_EVERY = {"quick": 30, "thorough": 200}  # in-memory: every n-th task is a stop sweep; Redis/RabbitMQ: all of them
 BUDGET = {"quick": 50, "thorough": 900}
 RULE = (
     "one or two connections (each with its own in-memory message broker, args and results bucket brokers) alive in the "
@@ -26,6 +27,10 @@ RULE = (
     "Oracle: per top-level call exactly one before_X before the effect and one after_X iff it returned, with the call's actual "
     "arguments by name (+ result), delivered to the owning connection's subscribers only; nested calls emit nothing; the same "
     "seed with all non-logging subscribers removed gives the same per-operation results and the same final broker state. "
+    "Stop mode (all three brokers): C03's stop sweep (SIGINT / forced cancellation at the loop steps of a reference run at "
+    "which a message is in flight or a broker call is open) on a worker whose connection has 1-6 observers (yielding, slow, "
+    "raising or sync; after_consume always among them); C03's conservation oracle decides, which holds without observers, so a "
+    "message lost, stuck in flight or duplicated is an outcome changed by a subscriber. "
     "non-trivial = a raising or slow subscriber was invoked; distinct = interleaving digest."
 )
 SHRINK_LISTS = ("subscribers",)
@@ -313,7 +318,31 @@ async def _main(sim, sc, out):
         probe(out, "nested-wrapped-call-seen", len([c for c in calls if c["nested"]]))
 
 
+STOP_SIGNALS = ["after_consume", "before_consume", "before_ack", "after_ack", "before_nack", "after_nack", "before_requeue",
+                "after_requeue", "before_reject", "after_reject", "before_actor_run", "after_actor_run", "after_get_bucket",
+                "after_store_bucket", "before_enqueue", "after_enqueue"]
+
+
+def _stop_tweak(sc, rng):
+    subs = [{"signal": "after_consume", "kind": rng.choice(["yield", "yield", "slow", "raise"])}]
+    for name in rng.sample(STOP_SIGNALS[1:], rng.randint(0, 5)):
+        subs.append({"signal": name, "kind": rng.choice(["yield", "yield", "slow", "raise", "sync"])})
+    sc["subscribers"] = subs
+    sc["mode"] = "stop"
+
+
+def _stop_run(sc):
+    from . import c03
+
+    o = c03.run(sc)
+    for v in o["violations"]:
+        v["signature"] = "C17/stop/" + v["signature"].split("/", 1)[1]
+    return o
+
+
 def run(sc):
+    if sc.get("mode") == "stop":
+        return _stop_run(sc)
     out = execute(_main, sc, step_cap=1_500_000, wall_s=90)
     restore = out.pop("_restore", None)
     if restore:
@@ -346,4 +375,8 @@ def run(sc):
 
 
 def task(spec):
+    if spec["broker"] != "mem" or spec["idx"] % STOP_EVERY.get(spec["tier"], 30) == 7:
+        from . import c03
+
+        return c03.task(spec, run=_stop_run, tweak=_stop_tweak)
     return cli.default_task(__import__(__name__, fromlist=["x"]), spec)
